@@ -20,3 +20,4 @@ CHECKS["C10"] = standins.check_c10
 CHECKS["C14"] = standins.check_c14
 CHECKS["C17"] = standins.check_c17
 CHECKS["C15"] = standins.check_c15
+CHECKS["C19"] = standins.check_c19
